@@ -158,6 +158,9 @@ pub enum InputSel {
   ZeroValue(u32),
   /// k-th unspent pay-to-taproot output at most `max_conf` blocks deep, else Utxo(k)
   TaprootShallow { sel: u32, max_conf: u32 },
+  /// k-th unspent output of a coinbase whose txid occurs more than once on
+  /// this branch (the latest copy), else Utxo(k)
+  Duplicated(u32),
 }
 
 #[derive(Clone, Debug, PartialEq, Eq, Serialize, Deserialize)]
